@@ -7,6 +7,7 @@ import (
 	"context"
 	"errors"
 	"fmt"
+	"os"
 	"strings"
 	"sync"
 
@@ -72,6 +73,7 @@ type simInline struct {
 }
 
 type simHistOpts struct {
+	StaleWriter       bool // sometimes a second server process with the same key is started and, after the first one has moved on, tries to sequence
 	CancelRounds      bool // the sequencing context of a round is sometimes cancelled before one of its operations
 	CreateRace        bool // the log is sometimes created by two concurrent CreateLog calls, and CreateLog is sometimes run again over the existing log
 	Admission         bool // a bounded pool (Config.PoolSize) and low-priority submissions: rejections and evictions happen
@@ -97,6 +99,7 @@ type simHistStats struct {
 	HugeRounds                                                                                              int
 	Evictions                                                                                               int
 	CreateRaces, CreatesOverExisting                                                                        int
+	StaleWriterRounds                                                                                       int
 	ResubmittedFailed                                                                                       int
 	RateLimited                                                                                             int
 	PoolSize                                                                                                int
@@ -184,6 +187,55 @@ type simHist struct {
 	httpSent           []int             // ids submitted so far (for resubmissions)
 	scts               map[string][]byte // dedup key -> SCT bytes of the first acknowledgement
 	HTTPAcks           int
+	stale              *simInst // a second server process (own cache), loaded at an earlier state of the log
+	staleCommits       int      // number of lock-store commits when it was loaded
+}
+
+// staleWriter starts a second server process now and then, and lets it sequence once the log has moved on: its
+// compare-and-swap must fail, its sequencer must stop with a fatal error, and nothing may be acknowledged.
+func (h *simHist) staleWriter(t *rapid.T) error {
+	s := h.s
+	if h.stale == nil {
+		if rapid.IntRange(0, 4).Draw(t, "staleWriterStarts") != 2 {
+			return nil
+		}
+		p := s.newProc()
+		p.begin("load", nil)
+		cfg := s.config(p)
+		cfg.Cache = s.w.cachePath + ".stale" // another machine: a cache of its own
+		os.Remove(cfg.Cache)
+		l, err := LoadLog(simInlineCtx(context.Background()), cfg)
+		if err != nil {
+			h.st.descf("a second server process refused to start: %s", simShortErr(err))
+			return nil
+		}
+		h.stale, h.staleCommits = &simInst{p: p, l: l, cfg: cfg}, len(s.commits)
+		h.st.descf("a second server process started at size %d", l.tree.N)
+		return nil
+	}
+	if len(s.commits) == h.staleCommits || rapid.IntRange(0, 2).Draw(t, "staleWriterRound") == 0 {
+		return nil
+	}
+	z := h.stale
+	h.stale = nil
+	defer z.close()
+	for k := rapid.IntRange(0, 3).Draw(t, "staleWriterN"); k > 0; k-- {
+		s.submit(simInlineCtx(context.Background()), z, simMakeEntry(9_000_000+h.st.StaleWriterRounds*8+k, k%2), false)
+	}
+	nack := len(s.acks)
+	res := s.roundCtx(simInlineCtx(context.Background()), z, nil)
+	h.st.StaleWriterRounds++
+	h.st.descf("the second server process (loaded %d commits ago at size %d) sequenced: err=%v acks=%d", len(s.commits)-h.staleCommits, z.l.tree.N, res.Err != nil, len(res.Acks))
+	if res.Err == nil || !errors.Is(res.Err, errFatal) {
+		return fmt.Errorf("a stale server process (loaded %d lock-store commits ago) sequenced a pool of %d and its sequencer did not stop with a fatal error: %v", len(s.commits)-h.staleCommits, res.PoolSize, res.Err)
+	}
+	if len(res.Acks) > 0 || len(s.acks) != nack {
+		return fmt.Errorf("a stale server process acknowledged %d submissions", len(res.Acks))
+	}
+	if v := s.w.violations(); len(v) > 0 {
+		return fmt.Errorf("%s", v[0])
+	}
+	return nil
 }
 
 // setRoots installs the simulator's CA as the accepted root of a freshly loaded instance.
@@ -449,6 +501,12 @@ func simShortErr(err error) string {
 // run executes a generated history. It returns an error describing a property violation.
 func (h *simHist) run(t *rapid.T) error {
 	s := h.s
+	defer func() {
+		if h.stale != nil {
+			h.stale.close()
+			h.stale = nil
+		}
+	}()
 	if !h.opts.Existing {
 		if h.opts.CreateRace && rapid.IntRange(0, 3).Draw(t, "createRace") == 1 {
 			// two processes create the log at the same time: the second CreateLog runs inside a storage or lock
@@ -500,6 +558,11 @@ func (h *simHist) run(t *rapid.T) error {
 	}
 	rounds := rapid.IntRange(1, h.opts.MaxRounds).Draw(t, "rounds")
 	for r := 0; r < rounds; r++ {
+		if h.opts.StaleWriter {
+			if err := h.staleWriter(t); err != nil {
+				return err
+			}
+		}
 		cur := int64(len(s.model))
 		n := simPoolSize(t, cur)
 		var entries []*simEntry
